@@ -450,3 +450,292 @@ Example C01_numarr_example :
 Proof.
   cbv zeta. repeat split; try (simpl; unfold nvalid; simpl; lia); vm_compute; reflexivity.
 Qed.
+
+(* ------------------------------------------------------------------------------------ *)
+(* CATEGORICAL ARRAYS (Spec/SurveyArray.v, Proofs/ArrayCountsProofs.v).
+   A respondent answers an array per item with a category or not at all ([AArr], already in
+   Spec/Survey.v); a category may be flagged missing at any payload position.  An array brings
+   TWO dimensions into a cube: S = its items (CA_SUBVAR, class "ARR") and C = its categories
+   (CA_CAT, class "CAT").  With at most one other variable X (categorical or MR) a cube the
+   library can cut into 2-D tables has one of eight axis orders ([ca_layout]: L_SC, L_CS,
+   L_XSC, L_XCS, L_CSX, L_CXS, L_SCX, L_SXC -- the name lists the dimensions of the response);
+   [ca_tabulate l] is the response tensor in THAT axis order, [lay_dims l] its dimensions,
+   [ca_slice l .. S k] what _BaseCubeCounts.factory hands to the count class of partition k
+   (tensor -> Cube._valid_idxs -> _slice_idx_expr), exactly like [slice_of] above.
+   [in_arr mi mc a i c]: the respondent gave the c-th valid category on the i-th valid item;
+   [lay_pop l kw mw a k]: belongs to element k of the table variable X (true for a 2-D cube). *)
+From CC Require Import Spec.SurveyArray Proofs.ArrayCountsProofs.
+
+(* what a cell of the response means, whatever the axis order: the weighted number of
+   respondents who answered payload category c on payload item i and contribute the X part *)
+Theorem C01_array_cell_meaning l v w kw S i c xs :
+  kw <> KArr -> List.length xs = (if lay_has_x l then arity kw else 0) ->
+  (ca_tabulate l v w kw S (lay_index l i c xs)
+   == wsum S (fun r => gave (ans r v) i c && x_part l kw (ans r w) xs))%Q.
+Proof. exact (ca_tabulate_cell l v w kw S i c xs). Qed.
+Print Assumptions C01_array_cell_meaning.
+
+Theorem C01_array_cell_headcount l v w kw S i c xs :
+  kw <> KArr -> List.length xs = (if lay_has_x l then arity kw else 0) ->
+  (ca_tabulate l v w kw (unit_weights S) (lay_index l i c xs)
+   == inject_Z (Z.of_nat (List.length (filter
+        (fun r => gave (ans r v) i c && x_part l kw (ans r w) xs) S))))%Q.
+Proof. exact (ca_tabulate_cell_headcount l v w kw S i c xs). Qed.
+Print Assumptions C01_array_cell_headcount.
+
+(* the model reads the dimension list of every layout as the stated class pair / sizes /
+   number of partitions / slicing rule (this is what [slice_counts] dispatches on) *)
+Theorem C01_array_layout_classes l mi mc kw mw :
+  cat_or_mr kw ->
+  exists si, slice_info_of (lay_dims l mi mc kw mw) = Some si /\
+    si_ndim si = List.length (apparent (lay_dims l mi mc kw mw)) /\
+    si_table_mr si = lay_table_mr l kw /\
+    cls_of (si_row si) = lay_rcls l kw /\ cls_of (si_col si) = lay_ccls l kw /\
+    nvalid (si_row si) = lay_nr l mi mc mw /\ nvalid (si_col si) = lay_nc l mi mc mw /\
+    n_partitions (lay_dims l mi mc kw mw) false = lay_nt l mi mc mw.
+Proof. exact (lay_slice_info l mi mc kw mw). Qed.
+Print Assumptions C01_array_layout_classes.
+
+(* ARR x CAT -- the array alone (l = L_SC, 2-D) or partition k of a table variable X
+   (l = L_XSC, X categorical or MR): cell (item i, category c) = respondents of table element
+   k who gave category c on item i *)
+Theorem C01_arr_x_cat_counts S l v w kw mi mc mw k i c :
+  cat_or_mr kw -> k < lay_nt l mi mc mw -> rows_items l -> i < nval mi -> c < nval mc ->
+  counts_of (ca_slice l v mi mc w kw mw S k) CArr CCat i c =x=
+  Fin (wsum S (fun r => lay_pop l kw mw (ans r w) k && in_arr mi mc (ans r v) i c)).
+Proof. exact (fun Hw Hk => arr_rows_counts S l v w kw mi mc mw k Hw Hk i c). Qed.
+Print Assumptions C01_arr_x_cat_counts.
+
+(* CAT x ARR -- the same cubes with the two array dimensions exchanged (L_CS, L_XCS) *)
+Theorem C01_cat_x_arr_counts S l v w kw mi mc mw k c i :
+  cat_or_mr kw -> k < lay_nt l mi mc mw -> cols_items l -> c < nval mc -> i < nval mi ->
+  counts_of (ca_slice l v mi mc w kw mw S k) CCat CArr c i =x=
+  Fin (wsum S (fun r => lay_pop l kw mw (ans r w) k && in_arr mi mc (ans r v) i c)).
+Proof. exact (fun Hw Hk => arr_cols_counts S l v w kw mi mc mw k Hw Hk c i). Qed.
+Print Assumptions C01_cat_x_arr_counts.
+
+(* ARR x CAT and ARR x MR -- the array's CATEGORIES are the table dimension (C S X): in the
+   table of category k, cell (item i, element j of X) = respondents who gave category k on
+   item i and belong to j (MR: selected it) *)
+Theorem C01_arr_x_other_counts S v w kw mi mc mw k i j :
+  cat_or_mr kw -> k < nval mc -> i < nval mi -> j < nval mw ->
+  counts_of (ca_slice L_CSX v mi mc w kw mw S k) CArr (kcls kw) i j =x=
+  Fin (wsum S (fun r => in_arr mi mc (ans r v) i k && in_el kw mw (ans r w) j)).
+Proof. exact (fun Hw Hk => csx_counts S v w kw mi mc mw k Hw Hk i j). Qed.
+Print Assumptions C01_arr_x_other_counts.
+
+(* CAT x ARR and MR x ARR (C X S) *)
+Theorem C01_other_x_arr_counts S v w kw mi mc mw k i j :
+  cat_or_mr kw -> k < nval mc -> i < nval mw -> j < nval mi ->
+  counts_of (ca_slice L_CXS v mi mc w kw mw S k) (kcls kw) CArr i j =x=
+  Fin (wsum S (fun r => in_arr mi mc (ans r v) j k && in_el kw mw (ans r w) i)).
+Proof. exact (fun Hw Hk => cxs_counts S v w kw mi mc mw k Hw Hk i j). Qed.
+Print Assumptions C01_other_x_arr_counts.
+
+(* the array's ITEMS are the table dimension (S C X, S X C): partition k IS, cell by cell and
+   for every index, the 2-D cube of item k as a categorical variable (variable 0 of
+   [explode_survey v item S]; the other variables move up by one) -- so every theorem about
+   categorical / MR cubes above applies to it ... *)
+Theorem C01_array_item_tables_are_categorical_cubes S v mi mc w kw mw k idx :
+  cat_or_mr kw ->
+  ca_slice L_SCX v mi mc w kw mw S k idx
+  = slice_of None 0 KCat mc (Datatypes.S w) kw mw (explode_survey v (nth k (valid_idxs mi) 0) S) 0 idx
+  /\
+  ca_slice L_SXC v mi mc w kw mw S k idx
+  = slice_of None (Datatypes.S w) kw mw 0 KCat mc (explode_survey v (nth k (valid_idxs mi) 0) S) 0 idx.
+Proof.
+  exact (fun Hw => conj (ca_slice_item_is_cat_cube_scx S v mi mc w kw mw k idx Hw)
+                        (ca_slice_item_is_cat_cube_sxc S v mi mc w kw mw k idx Hw)).
+Qed.
+Print Assumptions C01_array_item_tables_are_categorical_cubes.
+
+(* ... in particular the counts: CAT x CAT / CAT x MR (S C X) and CAT x CAT / MR x CAT (S X C) *)
+Theorem C01_array_item_tables_counts S v w kw mi mc mw k c j :
+  cat_or_mr kw -> k < nval mi -> c < nval mc -> j < nval mw ->
+  counts_of (ca_slice L_SCX v mi mc w kw mw S k) CCat (kcls kw) c j =x=
+    Fin (wsum S (fun r => in_arr mi mc (ans r v) k c && in_el kw mw (ans r w) j)) /\
+  counts_of (ca_slice L_SXC v mi mc w kw mw S k) (kcls kw) CCat j c =x=
+    Fin (wsum S (fun r => in_el kw mw (ans r w) j && in_arr mi mc (ans r v) k c)).
+Proof.
+  exact (fun Hw Hk Hc Hj => conj (scx_counts S v w kw mi mc mw k Hw Hk c j Hc Hj)
+                                 (sxc_counts S v w kw mi mc mw k Hw Hk j c Hj Hc)).
+Qed.
+Print Assumptions C01_array_item_tables_counts.
+
+(* unweighted twins: the same extraction on the unit-weight tensor is the NUMBER of such
+   respondents *)
+Theorem C01_arr_x_cat_unweighted S l v w kw mi mc mw k i c :
+  cat_or_mr kw -> k < lay_nt l mi mc mw -> rows_items l -> i < nval mi -> c < nval mc ->
+  counts_of (ca_slice l v mi mc w kw mw (unit_weights S) k) CArr CCat i c =x=
+  Fin (inject_Z (Z.of_nat (List.length (filter
+        (fun r => lay_pop l kw mw (ans r w) k && in_arr mi mc (ans r v) i c) S)))).
+Proof. exact (arr_rows_counts_headcount S l v w kw mi mc mw k i c). Qed.
+Print Assumptions C01_arr_x_cat_unweighted.
+
+Theorem C01_cat_x_arr_unweighted S l v w kw mi mc mw k c i :
+  cat_or_mr kw -> k < lay_nt l mi mc mw -> cols_items l -> c < nval mc -> i < nval mi ->
+  counts_of (ca_slice l v mi mc w kw mw (unit_weights S) k) CCat CArr c i =x=
+  Fin (inject_Z (Z.of_nat (List.length (filter
+        (fun r => lay_pop l kw mw (ans r w) k && in_arr mi mc (ans r v) i c) S)))).
+Proof. exact (arr_cols_counts_headcount S l v w kw mi mc mw k c i). Qed.
+Print Assumptions C01_cat_x_arr_unweighted.
+
+Theorem C01_arr_x_other_unweighted S v w kw mi mc mw k i j :
+  cat_or_mr kw -> k < nval mc -> i < nval mi -> j < nval mw ->
+  counts_of (ca_slice L_CSX v mi mc w kw mw (unit_weights S) k) CArr (kcls kw) i j =x=
+  Fin (inject_Z (Z.of_nat (List.length (filter
+        (fun r => in_arr mi mc (ans r v) i k && in_el kw mw (ans r w) j) S)))).
+Proof. exact (csx_counts_headcount S v w kw mi mc mw k i j). Qed.
+Print Assumptions C01_arr_x_other_unweighted.
+
+Theorem C01_other_x_arr_unweighted S v w kw mi mc mw k i j :
+  cat_or_mr kw -> k < nval mc -> i < nval mw -> j < nval mi ->
+  counts_of (ca_slice L_CXS v mi mc w kw mw (unit_weights S) k) (kcls kw) CArr i j =x=
+  Fin (inject_Z (Z.of_nat (List.length (filter
+        (fun r => in_arr mi mc (ans r v) j k && in_el kw mw (ans r w) i) S)))).
+Proof. exact (cxs_counts_headcount S v w kw mi mc mw k i j). Qed.
+Print Assumptions C01_other_x_arr_unweighted.
+
+Theorem C01_array_item_tables_unweighted S v w kw mi mc mw k c j :
+  cat_or_mr kw -> k < nval mi -> c < nval mc -> j < nval mw ->
+  counts_of (ca_slice L_SCX v mi mc w kw mw (unit_weights S) k) CCat (kcls kw) c j =x=
+    Fin (inject_Z (Z.of_nat (List.length (filter
+          (fun r => in_arr mi mc (ans r v) k c && in_el kw mw (ans r w) j) S)))) /\
+  counts_of (ca_slice L_SXC v mi mc w kw mw (unit_weights S) k) (kcls kw) CCat j c =x=
+    Fin (inject_Z (Z.of_nat (List.length (filter
+          (fun r => in_el kw mw (ans r w) j && in_arr mi mc (ans r v) k c) S)))).
+Proof.
+  exact (fun Hw Hk Hc Hj => conj (scx_counts_headcount S v w kw mi mc mw k c j Hw Hk Hc Hj)
+                                 (sxc_counts_headcount S v w kw mi mc mw k j c Hw Hk Hj Hc)).
+Qed.
+Print Assumptions C01_array_item_tables_unweighted.
+
+(* a counted respondent answered a NON-missing category on a NON-missing item, namely the
+   payload positions the output row / column stands for ... *)
+Theorem C01_array_counted_answers_are_valid mi mc a i c :
+  in_arr mi mc a i c = true ->
+  exists pi pc, aarr a pi = Some pc /\
+    pi = nth i (valid_idxs mi) 0 /\ pi < List.length mi /\ nth pi mi true = false /\
+    pc = nth c (valid_idxs mc) 0 /\ pc < List.length mc /\ nth pc mc true = false.
+Proof. exact (in_arr_true mi mc a i c). Qed.
+Print Assumptions C01_array_counted_answers_are_valid.
+
+(* ... an answer that is a category flagged missing (wherever it sits in the payload), or no
+   answer, puts the respondent in no cell of THAT item and makes him not valid on it *)
+Theorem C01_array_missing_answers_never_contribute mi mc a i :
+  (forall pc, aarr a (nth i (valid_idxs mi) 0) = Some pc -> nth pc mc true = true ->
+     (forall c, in_arr mi mc a i c = false) /\ ok_arr mi mc a i = false) /\
+  (aarr a (nth i (valid_idxs mi) 0) = None ->
+     (forall c, in_arr mi mc a i c = false) /\ ok_arr mi mc a i = false).
+Proof.
+  exact (conj (fun pc => arr_missing_category_excluded mi mc a i pc)
+              (arr_no_answer_excluded mi mc a i)).
+Qed.
+Print Assumptions C01_array_missing_answers_never_contribute.
+
+(* ARR x ARR.  FULL STATEMENT WANTED: "for the cube of two arrays a, b the class
+   _ArrXArrCubeCounts applied to the slice the library cuts reports, in cell (item i of a, item
+   j of b), the respondents who gave the table's categories on those items".  It cannot be
+   stated on the library's pipeline: two CA_SUBVAR dimensions as rows and columns need the two
+   CA_CAT dimensions as well, i.e. FOUR dimensions ([C01_arr_x_arr_needs_four_dimensions]
+   below), and Cube._slice_idxs / _slice_idx_expr cut a cube of more than three dimensions
+   along the FIRST one only -- the class would receive a 3-D array.  No response of at most
+   three dimensions over categorical, MR and categorical-array variables reaches the class.
+   PROVED (partial): for ANY slice tensor with the two-array meaning the class reports that
+   number as count and as all three bases; [two_arrays_plane] (the plane "category ka of a,
+   category kb of b" of the survey's 4-D tensor) has that meaning.  MISSING: a model of 4-D
+   slicing, which the library does not have. *)
+Theorem C01_arr_x_arr_counts_partial S va mia mca ka vb mib mcb kb nr nc sr sc i j :
+  nr = nval mia -> nc = nval mib -> ka < nval mca -> kb < nval mcb -> i < nr -> j < nc ->
+  let V := two_arrays_plane va mia mca ka vb mib mcb kb S in
+  let n := Fin (wsum S (fun r => in_arr mia mca (ans r va) i ka && in_arr mib mcb (ans r vb) j kb)) in
+  counts_of V CArr CArr i j =x= n /\
+  row_bases_of V nc sc CArr CArr i j =x= n /\
+  column_bases_of V nr sr CArr CArr i j =x= n /\
+  table_bases_of V nr nc sr sc CArr CArr i j =x= n.
+Proof.
+  exact (fun Enr Enc Hka Hkb Hi Hj =>
+    arr_arr_class S (two_arrays_plane va mia mca ka vb mib mcb kb S)
+      (fun i j r => in_arr mia mca (ans r va) i ka && in_arr mib mcb (ans r vb) j kb) nr nc
+      (fun i' j' Hi' Hj' => two_arrays_plane_cell va mia mca ka vb mib mcb kb S i' j'
+                              (eq_ind nr (fun n => i' < n) Hi' _ Enr) Hka
+                              (eq_ind nc (fun n => j' < n) Hj' _ Enc) Hkb)
+      sr sc i j Hi Hj).
+Qed.
+Print Assumptions C01_arr_x_arr_counts_partial.
+
+Theorem C01_arr_x_arr_needs_four_dimensions ds si :
+  (forall d, In d ds -> dk d <> DNumArr) ->
+  count_if is_casub ds <= count_if is_dcat ds ->      (* every array brings its categories *)
+  slice_info_of ds = Some si ->
+  cls_of (si_row si) = CArr -> cls_of (si_col si) = CArr ->
+  4 <= si_ndim si.
+Proof. exact (arr_arr_needs_four_dims ds si). Qed.
+Print Assumptions C01_arr_x_arr_needs_four_dimensions.
+
+(* Non-vacuity.  Five respondents; variable 0 = array of 2 items x 3 categories with the MIDDLE
+   category missing, variable 1 = categorical (last category missing), variable 2 = MR with two
+   items.  Respondent 2 gave the missing category on item 0, respondent 1 on item 1,
+   respondent 4 did not answer item 1.  Each response is produced by [flatten] in its own axis
+   order and cut by [slice_counts] (the function the correspondence check evaluates):
+   the array alone (ARR x CAT); categories x items x MR, table of the last category (ARR x MR);
+   categories x MR x items (MR x ARR); categorical x items x categories, table 1 (ARR x CAT);
+   categories x categorical x items, table of the last category (CAT x ARR). *)
+Example C01_array_example :
+  let S := [ mkResp [AArr [0; 2]; ACat 0; AMr [Sel; Oth]] (3 # 2);
+             mkResp [AArr [2; 1]; ACat 1; AMr [Sel; Mis]] 2;
+             mkResp [AArr [1; 2]; ACat 0; AMr [Oth; Sel]] 5;
+             mkResp [AArr [0; 0]; ACat 1; AMr [Sel; Sel]] (1 # 4);
+             mkResp [AArr [2];    ACat 2; AMr [Mis; Sel]] 1 ] in
+  let mi := [false; false] in
+  let mc := [false; true; false] in
+  let mwc := [false; false; true] in
+  let mwm := [false; false] in
+  let counts l w kw mw k :=
+    let ds := lay_dims l mi mc kw mw in
+    option_map (fun so => map (map xred) (so_counts so))
+               (slice_counts ds (flatten (raw_shape ds) (ca_raw l 0 w kw S)) k) in
+  cat_or_mr KCat /\ cat_or_mr KMr /\ KMr <> KArr /\ wf_survey S /\
+  nval mi = 2 /\ nval mc = 2 /\ nval mwc = 2 /\ nval mwm = 2 /\
+  rows_items L_SC /\ rows_items L_XSC /\ 0 < lay_nt L_SC mi mc mwc /\ 1 < lay_nt L_XSC mi mc mwc /\
+  counts L_SC 1 KCat mwc 0 = Some [[Fin (7 # 4); Fin 3]; [Fin (1 # 4); Fin (13 # 2)]] /\
+  counts L_CSX 2 KMr mwm 1 = Some [[Fin 2; Fin 1]; [Fin (3 # 2); Fin 5]] /\
+  counts L_CXS 2 KMr mwm 1 = Some [[Fin 2; Fin (3 # 2)]; [Fin 1; Fin 5]] /\
+  counts L_XSC 1 KCat mwc 1 = Some [[Fin (1 # 4); Fin 2]; [Fin (1 # 4); Fin 0]] /\
+  counts L_CXS 1 KCat mwc 1 = Some [[Fin 0; Fin (13 # 2)]; [Fin 2; Fin 0]] /\
+  counts L_SCX 2 KMr mwm 1 = Some [[Fin (1 # 4); Fin (1 # 4)]; [Fin (3 # 2); Fin 5]] /\
+  counts_of (ca_slice L_CSX 0 mi mc 2 KMr mwm S 1) CArr CMr 1 0 =x= Fin (3 # 2) /\
+  (wsum S (fun r => in_arr mi mc (ans r 0) 1 1 && in_el KMr mwm (ans r 2) 0) == 3 # 2)%Q /\
+  (wsum S (fun r => in_arr mi mc (ans r 0) 0 1) == 3)%Q /\
+  (ca_tabulate L_CXS 0 2 KMr S (lay_index L_CXS 1 2 [O; O]) == 3 # 2)%Q.
+Proof.
+  cbv zeta. repeat split; try (left; reflexivity); try (right; reflexivity); try discriminate;
+    try lia; try (repeat constructor; discriminate); try (vm_compute; reflexivity).
+Qed.
+
+(* FROM THE FLAT PAYLOAD (Proofs/ArrayPayloadProofs.v).  [ca_payload l ..] = the response of the
+   cube query laid out as l: row-major flattening of [ca_tabulate l] in the all-dimensions shape
+   (missing items / categories, full MR selection axis).  [slice_counts] -- the function the
+   correspondence check evaluates on the JSON payload: reshape -> Cube._valid_idxs -> dimension
+   order -> _slice_idx_expr -> class -- returns, for every layout, X categorical or MR and every
+   partition k, in every cell exactly the class extractor applied to [ca_slice l .. S k], i.e.
+   the quantities of the theorems above (and of Props/C02.v: C02_*_from_payload state the
+   composition with the survey-level meaning, counts included). *)
+From CC Require Import Proofs.ArrayPayloadProofs.
+
+Theorem C01_array_slices_from_payload l v mi mc w kw mw S k :
+  cat_or_mr kw -> k < lay_nt l mi mc mw ->
+  let ds := lay_dims l mi mc kw mw in
+  let V := ca_slice l v mi mc w kw mw S k in
+  let rc := lay_rcls l kw in
+  let cc := lay_ccls l kw in
+  let nr := lay_nr l mi mc mw in
+  let nc := lay_nc l mi mc mw in
+  exists so, slice_counts ds (ca_payload l v mi mc w kw mw S) k = Some so /\
+    forall i j, i < nr -> j < nc ->
+      mnth (so_counts so) i j = counts_of V rc cc i j /\
+      mnth (so_row_bases so) i j = row_bases_of V nc (sel_len cc) rc cc i j /\
+      mnth (so_column_bases so) i j = column_bases_of V nr (sel_len rc) rc cc i j /\
+      mnth (so_table_bases so) i j = table_bases_of V nr nc (sel_len rc) (sel_len cc) rc cc i j.
+Proof. exact (ca_slice_counts_of_payload l v mi mc w kw mw S k). Qed.
+Print Assumptions C01_array_slices_from_payload.
